@@ -244,7 +244,15 @@ pub fn apply_ops<T: HLabel>(nwl: bool, ops: &[Op<T>]) -> Result<AAFramework<T>, 
     } else {
         AAFramework::new_with_argument_set(ArgumentSet::new_with_labels(&[]))
     };
-    for op in ops[start..].iter() {
+    let n_ops = ops.len() - start;
+    for (i, op) in ops[start..].iter().enumerate() {
+        // the framework is *looked at* while it is being built (read-only public observers, the
+        // grounded extension among them): whatever an observer computes must not survive the next update
+        if i % 4 == 1 || i + 1 == n_ops {
+            let _ = af.grounded_extension();
+            let _ = af.n_attacks();
+            let _ = af.iter_attacks().count();
+        }
         match op {
             Op::AddArg(l) => af.new_argument(l.clone()),
             Op::DelArg(l) => af
